@@ -79,9 +79,17 @@ Qed.
 Lemma max_roundtrip : forall f, current_after f = Some f.
 Proof. intros [[]|]; vm_compute; reflexivity. Qed.
 
+(** before anything was published the maximum reads OFF *)
+Lemma max_initial : current_initial = Some None.
+Proof. reflexivity. Qed.
+
 (** each public LevelFilter constant denotes itself *)
 Lemma filter_consts : forall f, assoc_olv f gen_filter_const = Some f.
 Proof. intros [[]|]; vm_compute; reflexivity. Qed.
+
+(** the five conversions between Level, Option<Level> and LevelFilter are the identity on the wrapped value *)
+Lemma conversions_identity : map snd gen_conv_identity = [true; true; true; true; true].
+Proof. reflexivity. Qed.
 
 (** ** Text: display then parse *)
 Lemma display_parse_level : forall l, exists s, display_level l = Some s /\ parse_level s = Some l
